@@ -131,7 +131,10 @@ def gen_c10(rng, idx, tier, faults):
         if faults and li == 0 and rng.random() < 0.12 and (cv is None or cv["type"] != "generator"):
             # the fit crashes at an arbitrary line; the caller fits the same object again
             cenv = dict(env)
-            cenv["interrupt"] = {"exc": rng.choice(["KeyboardInterrupt", "MemoryError"]), "at": rng.randint(1, 120)}
+            if rng.random() < 0.25:
+                cenv["linalg"] = {"fail_at": rng.randint(1, 3)}  # one of the three SVDs does not converge
+            else:
+                cenv["interrupt"] = {"exc": rng.choice(["KeyboardInterrupt", "MemoryError"]), "at": rng.randint(1, 120)}
             ops.append({"op": "FIT", "obj": f"e{li}", "env": cenv})
         ops.append({"op": "FIT", "obj": f"e{li}", "env": env})
         if rng.random() < 0.3:
